@@ -11,9 +11,15 @@ struct Inner<T> {
     cv: Condvar,
     cap: usize,
     id: usize,
+    /// multi-sender channel (`unbounded`): live sender handles, messages offered by threads outside the model
+    /// (handle, message), handles whose offered message was taken
+    ext: Option<Mutex<(usize, Vec<(usize, T)>, Vec<usize>)>>,
+    xcv: Condvar,
 }
 pub struct Sender<T> {
     inner: Arc<Inner<T>>,
+    /// handle id on a multi-sender channel
+    handle: usize,
 }
 pub struct Receiver<T> {
     inner: Arc<Inner<T>>,
@@ -100,12 +106,70 @@ fn activity() {
 
 pub fn bounded<T>(cap: usize) -> (Sender<T>, Receiver<T>) {
     let id = if vsched::controlled() { vsched::new_channel(cap) } else { 0 };
-    let inner = Arc::new(Inner { q: Mutex::new((VecDeque::new(), true, true)), cv: Condvar::new(), cap, id });
-    (Sender { inner: inner.clone() }, Receiver { inner })
+    let inner = Arc::new(Inner { q: Mutex::new((VecDeque::new(), true, true)), cv: Condvar::new(), cap, id, ext: None, xcv: Condvar::new() });
+    (Sender { inner: inner.clone(), handle: 0 }, Receiver { inner })
+}
+
+/// A channel of unlimited capacity whose sender may be cloned. Under the controlled scheduler its senders are taken to
+/// be helper threads outside the model: each `send` of such a thread is offered to the scheduler and the order in which
+/// the receiving logical thread takes the offers is a scheduling decision (`Op::RecvExt`).
+pub fn unbounded<T>() -> (Sender<T>, Receiver<T>) {
+    let id = if vsched::controlled() { vsched::new_ext_channel() } else { 0 };
+    let inner = Arc::new(Inner {
+        q: Mutex::new((VecDeque::new(), true, true)),
+        cv: Condvar::new(),
+        cap: usize::MAX,
+        id,
+        ext: Some(Mutex::new((1, vec![], vec![]))),
+        xcv: Condvar::new(),
+    });
+    (Sender { inner: inner.clone(), handle: 0 }, Receiver { inner })
+}
+
+impl<T> Clone for Sender<T> {
+    fn clone(&self) -> Self {
+        match &self.inner.ext {
+            Some(x) => {
+                x.lock().unwrap().0 += 1;
+                let handle = if vsched::controlled() { vsched::ext_handle_new(self.inner.id) } else { 0 };
+                Sender { inner: self.inner.clone(), handle }
+            }
+            None => panic!("s4v shim: cloning the sender of a bounded (per-worker) channel is not modelled"),
+        }
+    }
 }
 
 impl<T> Sender<T> {
+    fn send_ext(&self, msg: T) -> Result<(), SendError<T>> {
+        let x = self.inner.ext.as_ref().unwrap();
+        if !self.inner.q.lock().unwrap().2 {
+            return Err(SendError(msg));
+        }
+        if vsched::controlled() && vsched::my_tid().is_none() {
+            // a thread outside the model: offer the message and wait until the receiver has taken it
+            x.lock().unwrap().1.push((self.handle, msg));
+            vsched::ext_sender_parked(self.inner.id, self.handle);
+            let mut g = x.lock().unwrap();
+            loop {
+                if let Some(p) = g.2.iter().position(|h| *h == self.handle) {
+                    g.2.remove(p);
+                    return Ok(());
+                }
+                g = self.inner.xcv.wait_timeout(g, std::time::Duration::from_millis(50)).unwrap().0;
+            }
+        }
+        self.inner.q.lock().unwrap().0.push_back(msg);
+        if vsched::controlled() {
+            vsched::ext_direct_send(self.inner.id);
+        }
+        self.inner.cv.notify_all();
+        activity();
+        Ok(())
+    }
     pub fn send(&self, msg: T) -> Result<(), SendError<T>> {
+        if self.inner.ext.is_some() {
+            return self.send_ext(msg);
+        }
         if vsched::controlled() {
             vsched::bind_sender(self.inner.id);
             let (_, ok) = vsched::park(Op::Send(self.inner.id));
@@ -153,6 +217,22 @@ impl<T> Sender<T> {
 }
 impl<T> Drop for Sender<T> {
     fn drop(&mut self) {
+        if let Some(x) = &self.inner.ext {
+            let left = {
+                let mut g = x.lock().unwrap();
+                g.0 -= 1;
+                g.0
+            };
+            if vsched::controlled() {
+                vsched::ext_handle_drop(self.inner.id);
+            }
+            if left == 0 {
+                self.inner.q.lock().unwrap().1 = false;
+            }
+            self.inner.cv.notify_all();
+            activity();
+            return;
+        }
         if vsched::controlled() {
             vsched::bind_sender(self.inner.id);
             vsched::park(Op::SenderDrop(self.inner.id));
@@ -167,7 +247,7 @@ impl<T> Drop for Sender<T> {
 }
 impl<T> Drop for Receiver<T> {
     fn drop(&mut self) {
-        if vsched::controlled() && vsched::my_tid().is_some() {
+        if self.inner.ext.is_none() && vsched::controlled() && vsched::my_tid().is_some() {
             vsched::park(Op::ReceiverDrop(self.inner.id));
         }
         let mut g = self.inner.q.lock().unwrap();
@@ -177,8 +257,41 @@ impl<T> Drop for Receiver<T> {
         self.inner.cv.notify_all();
     }
 }
+pub struct Iter<'a, T> {
+    r: &'a Receiver<T>,
+}
+impl<'a, T> Iterator for Iter<'a, T> {
+    type Item = T;
+    fn next(&mut self) -> Option<T> {
+        self.r.recv().ok()
+    }
+}
 impl<T> Receiver<T> {
+    /// blocking iterator that ends when the channel is empty and disconnected
+    pub fn iter(&self) -> Iter<'_, T> {
+        Iter { r: self }
+    }
+    fn recv_ext_controlled(&self) -> Result<T, RecvError> {
+        let x = self.inner.ext.as_ref().unwrap();
+        let (alt, _r) = vsched::park(Op::RecvExt(self.inner.id));
+        if alt == vsched::ALT_NONE {
+            return Err(RecvError);
+        }
+        if alt == vsched::ALT_QUEUED {
+            return self.inner.q.lock().unwrap().0.pop_front().ok_or(RecvError);
+        }
+        let mut g = x.lock().unwrap();
+        let p = g.1.iter().position(|(h, _)| *h == alt).expect("scheduler/offer mismatch");
+        let (h, msg) = g.1.remove(p);
+        g.2.push(h);
+        drop(g);
+        self.inner.xcv.notify_all();
+        Ok(msg)
+    }
     pub fn recv(&self) -> Result<T, RecvError> {
+        if self.inner.ext.is_some() && vsched::controlled() && vsched::my_tid().is_some() {
+            return self.recv_ext_controlled();
+        }
         let mut sel = Select::new();
         sel.recv(self);
         let op = sel.select();
@@ -238,6 +351,9 @@ impl<'a> Select<'a> {
     }
     pub fn recv<T>(&mut self, r: &'a Receiver<T>) -> usize {
         let inner: &'a Inner<T> = &r.inner;
+        if inner.ext.is_some() && vsched::controlled() && vsched::my_tid().is_some() {
+            panic!("s4v shim: select over a multi-sender channel is not modelled");
+        }
         self.probes.push(Probe {
             id: inner.id,
             ready: Box::new(move || {
